@@ -62,4 +62,30 @@ QuadrantBad(x) ==
   ELSE (IF Valid(r.quot) /\ DIsInt(Value(r.quot)) THEN {} ELSE {<<"quotient_not_integer", x, r>>})
        \cup (IF r.q \in 0..3 THEN {} ELSE {<<"nan_arm_reached", x, r>>})
        \cup (IF Valid(r.quot) /\ DIsInt(Value(r.quot)) /\ r.q # Mod4(Value(r.quot)) THEN {<<"quadrant_not_q_mod_4", x, r>>} ELSE {})
+
+\* ---- src/functions/trigonometry.rs:460-492  atan: interval dispatch -------------------------
+\* k = 4|x| + 0.25 in double-double arithmetic; the branch taken: 0: k <= 2, 1: k < 3, 2: k < 5, 3: k < 10, 4: else
+\* (TwoFloat compared with an f64: high word first, then the low word against 0)
+CmpTFW(k, w) == LET c == FCmp(k.hi, w) IN IF c = 0 THEN FCmp(k.lo, Zero(FALSE)) ELSE c
+AtanBranch(x) ==
+  LET k == AAddTF(AMulFT(W4, AAbs(x)), WQuarter)
+      le(n) == CmpTFW(k, RN(DInt(n))) \in {-1, 0}
+      lt(n) == CmpTFW(k, RN(DInt(n))) = -1
+  IN IF le(2) THEN 0 ELSE IF lt(3) THEN 1 ELSE IF lt(5) THEN 2 ELSE IF lt(10) THEN 3 ELSE 4
+\* the same decision on the exact value: |v| <= 7/16, < 11/16, < 19/16, < 39/16
+AtanBranchExact(v) ==
+  LET a16 == DScale2(DAbs(v), 4) IN        \* 16 |v|
+  IF DCmp(a16, DInt(7)) <= 0 THEN 0 ELSE IF DCmp(a16, DInt(11)) < 0 THEN 1
+  ELSE IF DCmp(a16, DInt(19)) < 0 THEN 2 ELSE IF DCmp(a16, DInt(39)) < 0 THEN 3 ELSE 4
+AtanFlowBad(x) == IF AtanBranch(x) = AtanBranchExact(Value(x)) THEN {} ELSE {<<"atan_branch", x, AtanBranch(x), AtanBranchExact(Value(x))>>}
+
+\* ---- src/functions/power.rs:91-103  powf: integrality test and parity of a negative base's exponent ----
+\* returns "nan" (non-integer exponent), "even" or "odd"
+PowfParity(y) ==
+  IF ~IsZeroNum(FModfFrac(y.hi)) \/ ~IsZeroNum(FModfFrac(y.lo)) THEN "nan"
+  ELSE LET lt == IF IsZeroNum(FTrunc(y.lo)) THEN FTrunc(y.hi) ELSE FTrunc(y.lo) IN
+       \* low_trunc % 2.0 == 0.0  (f64 remainder of an integer-valued word by 2 is exact)
+       IF lt.k = "f" /\ ~DIntIsOdd(D(lt)) THEN "even" ELSE "odd"
+PowfParityExact(v) == IF ~DIsInt(v) THEN "nan" ELSE IF DIntIsOdd(v) THEN "odd" ELSE "even"
+PowfFlowBad(y) == IF PowfParity(y) = PowfParityExact(Value(y)) THEN {} ELSE {<<"powf_parity", y, PowfParity(y), PowfParityExact(Value(y))>>}
 =============================================================================
